@@ -2,7 +2,7 @@
 C06 — only valid chain extensions are accepted; a rejected block changes nothing.
 Property theorems over the model `NeoModel.Model.AddBlock` (helper lemmas: Proofs/AddBlock*.lean).
 -/
-import NeoModel.Proofs.AddBlockTx
+import NeoModel.Proofs.AddBlockHist
 namespace NeoModel.AddBlock
 variable {L : Type}
 
@@ -198,5 +198,60 @@ example : Inv exEnv (addBlock exEnv exNode b1).1 :=
   inv_addBlock exEnv exNode _ b1 _ rfl (inv_genesis exEnv exCfg g0 3 [] rfl)
     ⟨by intro kh hm hh; simp [exNode] at hm; subst hm; exact absurd hh (by decide),
      by intro x hx y hy _; simp [exNode] at hx hy; subst hx; subst hy; rfl⟩ rfl
+
+/-- C06: AddHeaders (verification on) with any list of headers keeps the invariant. -/
+theorem inv_addHeaders (env : Env L) (s s' : Node L) (hs : List Header) (r : Option Err)
+    (hinv : Inv env s) (h : addHeaders env s true hs = (s', r)) : Inv env s' :=
+  inv_addHeaders_aux env s s' hs r hinv h
+
+-- non-vacuity: two linked, signed headers ahead of the genesis-only node are recorded
+def h2x : Header := { index := 2, hash := 12, prevHash := 11, merkleRoot := 0, ts := 7, nextConsensus := 7, sre := true, prevStateRoot := 46, wit := 19 }
+example : (addHeaders exEnv exNode true [h1, h2x]).1.headers = [g0, h1, h2x] ∧
+    (addHeaders exEnv exNode true [h1, h2x]).2 = none := by decide
+
+/-- C06, histories: along every sequence of AddBlock / AddHeaders calls (any blocks, any header
+lists, accepted or rejected) starting from a node that satisfies the invariant — e.g. the node holding
+only the genesis header (`inv_genesis`) — the invariant holds and the configuration is unchanged;
+hence `accept_only_valid` applies at every reachable state. Hypothesis: the header hash determines
+the hashable fields. -/
+theorem inv_run (env : Env L) (hcoll : ∀ x y : Header, x.hash = y.hash → SameCore x y)
+    (s : Node L) (hskip : s.cfg.skip = false) (hinv : Inv env s) (ops : List Op) :
+    Inv env (run env s ops) ∧ (run env s ops).cfg = s.cfg :=
+  inv_run_aux env hcoll s hskip hinv ops
+
+-- non-vacuity: a history with a rejected block, a header announcement and an accepted block
+example : (run exEnv exNode [.block { b1 with txs := [] }, .headers [h2x], .block b1]).blockHeight = 1 ∧
+    (run exEnv exNode [.block { b1 with txs := [] }, .headers [h2x], .block b1]).headers.length = 3 := by decide
+
+/-- C06: no transaction of an accepted block stays in the mempool (a280843). -/
+theorem accepted_txs_leave_pool (env : Env L) (s s' : Node L) (b : Block)
+    (h : addBlock env s b = (s', none)) : ∀ q ∈ s'.pool, ∀ t ∈ b.txs, q.id ≠ t.id :=
+  accepted_txs_leave_pool_aux env s s' b h
+
+example : (addBlock exEnv exPooled b1).2 = none ∧ (addBlock exEnv exPooled b1).1.pool = [] := by decide
+
+/-! ### why the duplicate check is needed: the Merkle root does not exclude a repeated last transaction -/
+
+/-- repeating the last element of an odd level does not change the next level, for any hash `h2` -/
+theorem merkleLevel_dup_last (h2 : Nat → Nat → Nat) (pre : List Nat) (x : Nat) (n : Nat)
+    (hn : pre.length = 2 * n) :
+    merkleLevel h2 (pre ++ [x, x]) = merkleLevel h2 (pre ++ [x]) := by
+  induction n generalizing pre with
+  | zero =>
+    have : pre = [] := List.eq_nil_of_length_eq_zero (by omega)
+    subst this; rfl
+  | succ n ih =>
+    match pre, hn with
+    | a :: b :: rest, hn =>
+      simp only [List.cons_append, merkleLevel]
+      rw [ih rest (by simp at hn; omega)]
+
+/-- the block [a,b,c,c] has the Merkle root of [a,b,c] (and so the same header hash and a valid
+signature): the root check alone does not make the transaction list unique. -/
+theorem merkle_dup_last3 (h2 : Nat → Nat → Nat) (a b c : Nat) :
+    merkleRoot h2 [a, b, c, c] = merkleRoot h2 [a, b, c] := rfl
+
+theorem merkle_dup_last5 (h2 : Nat → Nat → Nat) (a b c d e : Nat) :
+    merkleRoot h2 [a, b, c, d, e, e] = merkleRoot h2 [a, b, c, d, e] := rfl
 
 end NeoModel.AddBlock
